@@ -98,6 +98,11 @@ pub fn fault_stmts() -> Vec<(&'static str, Vec<Stmt>)> {
         ("op-assign element types", vec![op_assign(index(var("lst"), int(0)), Op::Sum, string("a"))]),
         ("assign type property", vec![assign(tprop(var("num"), "type"), int(1))]),
         ("assign undefined", vec![assign(var("nope"), int(1))]),
+        ("assign undefined inside a list pattern", vec![assign(list(vec![var("num"), var("nope")]), list(vec![int(1), int(2)]))]),
+        ("assign undefined inside an object pattern", vec![assign(obj(vec![Prop::Pair(string("a"), var("num")), Prop::Pair(string("b"), var("nope"))]), var("obj"))]),
+        ("assign undefined as the rest of a list pattern", vec![assign(list_items(vec![item(var("num")), item(var("nope"))], true), list(vec![int(1), int(2)]))]),
+        ("assign undefined as the rest of an object pattern", vec![assign(obj(vec![Prop::Pair(string("a"), var("num")), Prop::Single{e: var("nope"), spread: false, collect: true}]), var("obj"))]),
+        ("assign undefined in a nested pattern", vec![assign(list(vec![var("num"), obj(vec![Prop::Pair(string("k"), var("nope"))])]), list(vec![int(1), obj(vec![pair("k", int(2))])]))]),
         ("op-assign undefined", vec![op_assign(var("nope"), Op::Sum, int(1))]),
         ("redeclare", vec![declare(var("num"), int(2))]),
         ("redeclare function", vec![fn_decl("usr", vec![], false, vec![])]),
